@@ -5,7 +5,8 @@ From Falcon.lib Require Import PyStr.
 From Falcon.C14 Require Import Spec.
 From Falcon.C14 Require Import Model ModelAsync.
 From Falcon.C13 Require Import Model ModelReaders Spec ProofsRoundtrip ProofsNoCrash ProofsOracle
-  ProofsChunkingSync ProofsChunkingAsync ModelPart SpecPart ProofsPartHeader ProofsPart ModelHeap ProofsHeap.
+  ProofsChunkingSync ProofsChunkingAsync ModelPart SpecPart ProofsPartHeader ProofsPart ModelHeap ProofsHeap
+  ModelPartOps ProofsPartOps.
 Import ListNotations.
 Local Open Scope nat_scope.
 
@@ -154,6 +155,58 @@ Theorem C13_metadata_late_read_wrong_if_shared :
   exists ps times, metadata_views true ps times <> own_views ps times.
 Proof. exact late_read_wrong_if_shared. Qed.
 Print Assumptions C13_metadata_late_read_wrong_if_shared.
+
+(* get_text() / .text, get_media() / .media, get_data() / .data: ModelPartOps.v is the state machine
+   of one BodyPart (stream + the caches _data and _media; handler resolution = C11's model of
+   Handlers._resolve on the part's content type; what the k-th handler invocation does is an
+   input).  TEXT ROUND TRIP: a text/plain part whose charset is declared with one of the encoder's
+   spellings (utf-8, UTF-8, utf8, latin-1, ISO-8859-1, latin1, ascii, us-ascii, US-ASCII) or not
+   declared (default utf-8), holding the bytes of a text encodable in that charset and within
+   the buffer limit: get_text() returns exactly that text (header dictionary as produced for a
+   form field: content-disposition first, then content-type). *)
+Theorem C13_part_text_roundtrip : forall max_buffer name cd t v,
+  (name = None /\ cd = CUtf8) \/ (exists n, name = Some n /\ In (n, cd) text_charsets) ->
+  encodable cd t = true -> length (encode_with cd t) <= max_buffer ->
+  let h := [(s_content_disposition, v); (s_content_type, text_ctype name)] in
+  get_text max_buffer s_utf8_default h (pinit (encode_with cd t))
+  = (PText (Some t), {| s_rest := []; s_data := Some (encode_with cd t); s_media := None;
+                        s_calls := 0; s_log := [] |}).
+Proof. exact part_text_roundtrip_cd. Qed.
+Print Assumptions C13_part_text_roundtrip.
+
+(* a part that is not text/plain: get_text() is None and does not touch the stream *)
+Theorem C13_part_text_not_text_plain : forall max_buffer dc h s ct,
+  content_type h = AOk ct -> fst (parse_header ct) <> s_text_plain ->
+  get_text max_buffer dc h s = (PText None, s).
+Proof. exact part_text_not_text_plain. Qed.
+Print Assumptions C13_part_text_not_text_plain.
+
+(* MEDIA PARSED AT MOST ONCE: once a handler invocation succeeded, every later get_media() /
+   .media returns the same object, invokes no handler and reads nothing *)
+Theorem C13_part_media_parsed_once : forall max_buffer dc hd hok h s r s',
+  get_media hd hok h s = (r, s') -> forall k, r = PMedia k ->
+  s_media s' = Some k /\
+  forall ops, Forall (fun o => o = PGetMedia) ops ->
+    prun max_buffer dc hd hok h s' ops = (map (fun _ => PMedia k) ops, s').
+Proof. exact part_media_parsed_once. Qed.
+Print Assumptions C13_part_media_parsed_once.
+
+(* whatever the application does with a part: handler invocations only ever grow, none happens
+   once the media is cached, and each one is logged (handler, content type, bytes) exactly once *)
+Theorem C13_part_media_invocations : forall max_buffer dc hd hok h ops s rs s',
+  prun max_buffer dc hd hok h s ops = (rs, s') ->
+  s_calls s <= s_calls s' /\ (s_media s <> None -> s_calls s' = s_calls s) /\
+  length (s_log s') = length (s_log s) + (s_calls s' - s_calls s).
+Proof. exact part_media_invocations. Qed.
+Print Assumptions C13_part_media_invocations.
+
+(* the part content is read into _data once; every later get_data() returns the cached bytes *)
+Theorem C13_part_data_read_once : forall max_buffer s r s',
+  get_data max_buffer s = (r, s') ->
+  s_data s' <> None /\
+  forall r2 s2, get_data max_buffer s' = (r2, s2) -> s2 = s' /\ exists d, r2 = PBytes d /\ s_data s' = Some d.
+Proof. exact part_data_read_once. Qed.
+Print Assumptions C13_part_data_read_once.
 
 (* INVALID STRUCTURE.  For EVERY byte string as body (valid, corrupted, truncated, garbage),
    every boundary, every limit setting and every consumption script with valid read_until
